@@ -255,6 +255,7 @@ func minMaxIssues(rs *Resid, fn *ast.FuncDecl, dir int) ([]sideIssue, string) {
 		out = append(out, sideIssue{fn, "does not return early for an empty list (indexing list[0] panics, or the default takes part in the comparison)", "no-empty-guard", ""})
 	}
 	// the replacement condition: inside the loop, `if COND { acc = ELEM }`
+	var extra []ast.Stmt
 	found := false
 	var und string
 	ast.Inspect(fn.Body, func(n ast.Node) bool {
@@ -266,11 +267,31 @@ func minMaxIssues(rs *Resid, fn *ast.FuncDecl, dir int) ([]sideIssue, string) {
 			ifs, ok := st.(*ast.IfStmt)
 			if !ok || ifs.Else != nil || len(ifs.Body.List) != 1 {
 				und = "loop body is not a single guarded replacement"
+				extra = append(extra, st)
+				continue
+			}
+			// an element that is skipped without being compared: `if v == nil { continue }`
+			if br, isBr := ifs.Body.List[0].(*ast.BranchStmt); isBr && br.Tok == token.CONTINUE {
+				skipsNil := false
+				if be, ok := unparen(ifs.Cond).(*ast.BinaryExpr); ok && be.Op == token.EQL && isNilLit(be.Y) {
+					if id, ok := rng.Value.(*ast.Ident); ok && canon(be.X) == id.Name {
+						skipsNil = true
+					}
+				}
+				switch {
+				case skipsNil && dir > 0:
+					// nil precedes every other value under derived Compare: it can never replace the running maximum
+				case skipsNil:
+					out = append(out, sideIssue{ifs, "skips nil elements without comparing them: nil precedes every other value under derived Compare, so a nil element after the first position is the minimum and is missed", "element-skipped", ""})
+				default:
+					out = append(out, sideIssue{ifs, fmt.Sprintf("skips elements (%s) without comparing them with the running %s", rs.src(ifs.Cond), which), "element-skipped", ""})
+				}
 				continue
 			}
 			as, ok := ifs.Body.List[0].(*ast.AssignStmt)
 			if !ok || len(as.Lhs) != 1 || canon(as.Lhs[0]) != acc {
 				und = "loop body does not assign the accumulator"
+				extra = append(extra, st)
 				continue
 			}
 			found = true
@@ -326,6 +347,9 @@ func minMaxIssues(rs *Resid, fn *ast.FuncDecl, dir int) ([]sideIssue, string) {
 	})
 	if !found && und == "" {
 		und = "no replacement loop found"
+	}
+	if found && len(extra) > 0 {
+		return nil, "the scan loop contains statements besides the guarded replacement (" + rs.src(extra[0]) + ")"
 	}
 	if !found {
 		return out, und
@@ -497,7 +521,16 @@ func sortLessRules(c *Ctx) {
 			// the order must be the derived Compare's (or the natural < of an ordered basic type), not a library order
 			ast.Inspect(lit.Body, func(n ast.Node) bool {
 				call, isCall := n.(*ast.CallExpr)
-				if !isCall || len(call.Args) != 2 || s.side(call.Args[0]) == "" || s.side(call.Args[1]) == "" {
+				if !isCall {
+					return true
+				}
+				// a method of the element itself (list[i].Compare(list[j])): the user's order, not the derived one
+				if sel, isSel := call.Fun.(*ast.SelectorExpr); isSel && s.side(sel.X) != "" {
+					ok = false
+					c.Rep.fail(residFinding(c.Repo, rs, "R8", "less-foreign-order", "sort: elements are ordered with their own method "+rs.src(call.Fun)+", not with the derived compare function: the result is not non-decreasing under derived Compare (and a nil element makes the method call panic)", call))
+					return true
+				}
+				if len(call.Args) != 2 || s.side(call.Args[0]) == "" || s.side(call.Args[1]) == "" {
 					return true
 				}
 				if funcHoleWho(rs, call.Fun) != "compare" {
